@@ -28,13 +28,25 @@ func init() {
 		{"BuildPrecertTBS.keyAtLoop", rangeLoopSrc(x, "BuildPrecertTBS", "tbs.Extensions", "buildPrecertKeyAtLoop")},
 		{"BuildPrecertTBS.issuerKeyIDLoop", rangeLoopSrc(x, "BuildPrecertTBS", "preIssuer.Extensions", "buildPrecertIssuerKeyIDLoop")},
 		{"BuildPrecertTBS.akiConds", ifChainConds(x, "BuildPrecertTBS", "keyAt >= 0", "buildPrecertAkiConds")},
-		{"BuildPrecertTBS.extEdits", assignsTo(x, "BuildPrecertTBS", "tbs.Extensions", "buildPrecertExtEdits")},
-		{"BuildPrecertTBS.valueEdit", assignsTo(x, "BuildPrecertTBS", "tbs.Extensions[keyAt].Value", "buildPrecertValueEdit")},
-		{"BuildPrecertTBS.issuerEdit", assignsTo(x, "BuildPrecertTBS", "tbs.Issuer.FullBytes", "buildPrecertIssuerEdit")},
+		// EVERY statement of the two functions that writes to (a part of) `tbs`, or hands out `&tbs`, each with the conditions that guard it
+		{"removeExtension.writes", writesTo(x, "removeExtension", "tbs", "removeExtensionWrites")},
+		{"BuildPrecertTBS.writes", writesTo(x, "BuildPrecertTBS", "tbs", "buildPrecertWrites")},
+		{"removeExtension.data", writesTo(x, "removeExtension", "data", "removeExtensionData")},
+		{"BuildPrecertTBS.data", writesTo(x, "BuildPrecertTBS", "data", "buildPrecertData")},
+		{"removeExtension.returns", returnsOf(x, "removeExtension", "removeExtensionReturns", "extAt")},
+		{"BuildPrecertTBS.returns", returnsOf(x, "BuildPrecertTBS", "buildPrecertReturns")},
+		// … and every statement that reads `tbs` as a whole (what is marshalled, and where)
+		{"removeExtension.marshals", usesWhole(x, "removeExtension", "tbs", "removeExtensionMarshals")},
+		{"BuildPrecertTBS.marshals", usesWhole(x, "BuildPrecertTBS", "tbs", "buildPrecertMarshals")},
 		{"BuildPrecertTBS.appended", assignsTo(x, "BuildPrecertTBS", "authKeyIDExt", "buildPrecertAppended")},
 		{"oid.CTPoison", oidVar(x, "OIDExtensionCTPoison", "oidCTPoison")},
 		{"oid.CTSCT", oidVar(x, "OIDExtensionCTSCT", "oidCTSCT")},
 		{"oid.AuthorityKeyId", oidVar(x, "OIDExtensionAuthorityKeyId", "oidAuthorityKeyId")},
+		// the CT extended key usage: its OID, the rows of the EKU table that mention it, and the two loops that look for it
+		{"oid.ExtKeyUsageCT", oidVar(x, "oidExtKeyUsageCertificateTransparency", "oidExtKeyUsageCT")},
+		{"eku.table", tableRows(x, "extKeyUsageOIDs", "CertificateTransparency", "ekuTableCTRows")},
+		{"eku.IsPreIssuer", rangeLoopSrc(se, "IsPreIssuer", "issuer.ExtKeyUsage", "isPreIssuerLoop")},
+		{"eku.BuildPrecertTBS", rangeLoopSrc(x, "BuildPrecertTBS", "preIssuer.ExtKeyUsage", "buildPrecertEkuLoop")},
 		{"tags.tbsCertificate", structTags(x, "tbsCertificate", "asn1", "tbsCertificateFields")},
 		{"tags.validity", structTags(x, "validity", "asn1", "validityFields")},
 		{"tags.publicKeyInfo", structTags(x, "publicKeyInfo", "asn1", "publicKeyInfoFields")},
@@ -51,7 +63,6 @@ func init() {
 		{"wiring.RemoveSCTList", soleReturn(x, "RemoveSCTList", "removeSCTListReturns")},
 		{"wiring.RemoveCTPoison", soleReturn(x, "RemoveCTPoison", "removeCTPoisonReturns")},
 		{"wiring.BuildPrecertTBS.first", firstAssign(x, "BuildPrecertTBS", "buildPrecertTBSFirst")},
-		{"wiring.removeExtension.edit", assignsTo(x, "removeExtension", "tbs.Extensions", "removeExtensionEdit")},
 		// the chain-length guards of the two leaf builders (n = len(chain))
 		{"leaf.precert.guard2", condKernel(se, "MerkleTreeLeafFromChain", []string{"len(chain)", "2"}, "leafChainTooShort", "(n : Int)",
 			Spec{Repl: map[string]string{"len(chain)": "n"}})},
@@ -338,5 +349,216 @@ func ifAfterLoop(rel, fn, loopX, v, leanName, params string, sp Spec) func() str
 			}
 		}
 		panic(bail{fmt.Sprintf("%s: no `if` on %s after the loop over %s in %s", rel, v, loopX, fn)})
+	}
+}
+
+// guarded walks the statements of a block, keeping the stack of enclosing conditions / loop headers.
+func guarded(b []ast.Stmt, guards []string, visit func(s ast.Stmt, guards []string)) {
+	for _, st := range b {
+		switch n := st.(type) {
+		case *ast.IfStmt:
+			if n.Init != nil {
+				visit(n.Init, guards)
+			}
+			g := append(append([]string{}, guards...), "if "+src(n.Cond))
+			guarded(n.Body.List, g, visit)
+			neg := append(append([]string{}, guards...), "else of "+src(n.Cond))
+			switch e := n.Else.(type) {
+			case *ast.BlockStmt:
+				guarded(e.List, neg, visit)
+			case *ast.IfStmt:
+				guarded([]ast.Stmt{e}, neg, visit)
+			}
+		case *ast.ForStmt:
+			h := "for"
+			if n.Cond != nil {
+				h += " " + src(n.Cond)
+			}
+			guarded(n.Body.List, append(append([]string{}, guards...), h), visit)
+		case *ast.RangeStmt:
+			guarded(n.Body.List, append(append([]string{}, guards...), "range "+src(n.X)), visit)
+		case *ast.BlockStmt:
+			guarded(n.List, guards, visit)
+		case *ast.SwitchStmt:
+			for _, c := range n.Body.List {
+				cc := c.(*ast.CaseClause)
+				guarded(cc.Body, append(append([]string{}, guards...), "switch "+src(n.Tag)+" case "+src(cc)), visit)
+			}
+		default:
+			visit(st, guards)
+		}
+	}
+}
+
+func startsWithVar(e ast.Expr, v string) bool {
+	for {
+		switch x := e.(type) {
+		case *ast.Ident:
+			return x.Name == v
+		case *ast.SelectorExpr:
+			e = x.X
+		case *ast.IndexExpr:
+			e = x.X
+		case *ast.SliceExpr:
+			e = x.X
+		case *ast.StarExpr:
+			e = x.X
+		case *ast.ParenExpr:
+			e = x.X
+		default:
+			return false
+		}
+	}
+}
+
+// writesTo: every statement of fn that assigns to v or to a part of v, increments it, declares it, or passes &v / &v.f to a call,
+// as "guard; guard; … => statement" in source order. An added write, a removed one, or one moved under another condition changes the list.
+func writesTo(rel, fn, v, leanName string) func() string {
+	return func() string {
+		fd := mustFunc(rel, fn)
+		var rows []string
+		guarded(fd.Body.List, nil, func(st ast.Stmt, guards []string) {
+			hit := false
+			switch n := st.(type) {
+			case *ast.AssignStmt:
+				for _, l := range n.Lhs {
+					if startsWithVar(l, v) {
+						hit = true
+					}
+				}
+			case *ast.IncDecStmt:
+				hit = startsWithVar(n.X, v)
+			case *ast.DeclStmt:
+				if gd, ok := n.Decl.(*ast.GenDecl); ok {
+					for _, sp := range gd.Specs {
+						if vs, ok := sp.(*ast.ValueSpec); ok {
+							for _, nm := range vs.Names {
+								if nm.Name == v {
+									hit = true
+								}
+							}
+						}
+					}
+				}
+			}
+			ast.Inspect(st, func(nd ast.Node) bool {
+				if u, ok := nd.(*ast.UnaryExpr); ok && u.Op == token.AND && startsWithVar(u.X, v) {
+					hit = true
+				}
+				return true
+			})
+			if hit {
+				rows = append(rows, leanStr(strings.Join(append(append([]string{}, guards...), ""), "; ")+"=> "+src(st)))
+			}
+		})
+		return fmt.Sprintf("/-- generated from %s func %s: every statement that writes to `%s` (or passes its address), with its guards -/\ndef %s : List String :=\n  [%s]\n",
+			rel, fn, v, leanName, strings.Join(rows, ",\n   "))
+	}
+}
+
+// usesWhole: every statement in which v occurs as a whole value (not `v.f`, not `&v`): where it is marshalled / returned / copied.
+func usesWhole(rel, fn, v, leanName string) func() string {
+	return func() string {
+		fd := mustFunc(rel, fn)
+		var rows []string
+		guarded(fd.Body.List, nil, func(st ast.Stmt, guards []string) {
+			hit := false
+			var walk func(n ast.Node, parentSel, parentAddr bool)
+			ast.Inspect(st, func(nd ast.Node) bool {
+				switch c := nd.(type) {
+				case *ast.CallExpr:
+					for _, a := range c.Args {
+						if id, ok := a.(*ast.Ident); ok && id.Name == v {
+							hit = true
+						}
+					}
+				case *ast.ReturnStmt:
+					for _, a := range c.Results {
+						if id, ok := a.(*ast.Ident); ok && id.Name == v {
+							hit = true
+						}
+					}
+				case *ast.AssignStmt:
+					for _, a := range c.Rhs {
+						if id, ok := a.(*ast.Ident); ok && id.Name == v {
+							hit = true
+						}
+					}
+				}
+				return true
+			})
+			_ = walk
+			if hit {
+				rows = append(rows, leanStr(strings.Join(append(append([]string{}, guards...), ""), "; ")+"=> "+src(st)))
+			}
+		})
+		return fmt.Sprintf("/-- generated from %s func %s: every statement that uses `%s` as a whole value -/\ndef %s : List String :=\n  [%s]\n",
+			rel, fn, v, leanName, strings.Join(rows, ",\n   "))
+	}
+}
+
+// returnsOf: every return statement of fn with its guards; error returns are abbreviated to their first result and `<error>`.
+// Guards that mention one of `kernels` are printed as `<regenerated test on …>`: those conditions are translated into Lean kernels
+// and proved about, so an equivalent rewrite of them must not break the pin.
+func returnsOf(rel, fn, leanName string, kernels ...string) func() string {
+	return func() string {
+		fd := mustFunc(rel, fn)
+		var rows []string
+		guarded(fd.Body.List, nil, func(st ast.Stmt, gs []string) {
+			r, ok := st.(*ast.ReturnStmt)
+			if !ok {
+				return
+			}
+			guards := append([]string{}, gs...)
+			for i, g := range guards {
+				for _, k := range kernels {
+					if strings.Contains(g, k) {
+						guards[i] = "<regenerated test on " + k + ">"
+					}
+				}
+			}
+			txt := "return " + src(r.Results[0])
+			if last := src(r.Results[len(r.Results)-1]); last == "nil" {
+				txt += ", nil"
+			} else {
+				txt += ", <error>"
+			}
+			rows = append(rows, leanStr(strings.Join(append(append([]string{}, guards...), ""), "; ")+"=> "+txt))
+		})
+		return fmt.Sprintf("/-- generated from %s func %s: every return statement with its guards -/\ndef %s : List String :=\n  [%s]\n",
+			rel, fn, leanName, strings.Join(rows, ",\n   "))
+	}
+}
+
+// tableRows: the rows (element source) of the composite literal initialising variable name that mention marker.
+func tableRows(rel, name, marker, leanName string) func() string {
+	return func() string {
+		f := parseFile(rp(rel))
+		for _, d := range f.Decls {
+			gd, ok := d.(*ast.GenDecl)
+			if !ok || gd.Tok != token.VAR {
+				continue
+			}
+			for _, sp := range gd.Specs {
+				vs := sp.(*ast.ValueSpec)
+				for i, n := range vs.Names {
+					if n.Name != name || i >= len(vs.Values) {
+						continue
+					}
+					cl, ok := vs.Values[i].(*ast.CompositeLit)
+					if !ok {
+						panic(bail{fmt.Sprintf("%s: %s is not a composite literal", rel, name)})
+					}
+					var rows []string
+					for _, e := range cl.Elts {
+						if strings.Contains(src(e), marker) {
+							rows = append(rows, leanStr(src(e)))
+						}
+					}
+					return fmt.Sprintf("/-- generated from %s: rows of `%s` that mention %s -/\ndef %s : List String := [%s]\n", rel, name, marker, leanName, strings.Join(rows, ", "))
+				}
+			}
+		}
+		panic(bail{fmt.Sprintf("%s: variable %s not found", rel, name)})
 	}
 }
